@@ -9,16 +9,21 @@
    Variant constants (regression witnesses of the deviations found in the pinned tree):
      InitCounter  "period-1" : first step AT start (conforming)   | "zero": init_rar resets to 0
      MaskUpTo     "new"      : the step's own points get p > 0     | "old" : mask lags one step
-     TimeBase     "own"      : times written at nt_start + ...     | "space": n_start used for times *)
+     TimeBase     "own"      : times written at nt_start + ...     | "space": n_start used for times
+     OnRestart    "reset"    : every solve call re-arms the period counter (init_rar) | "keep": a generator returned by an
+                               earlier call keeps its stale counter, the schedule of the next call slips
+
+   Restart = a further jinns.solve call fed with the returned generator (at most MaxCalls calls): the iteration counter
+   restarts at 0, the burn-in applies again, refinement steps / mask / store are carried over. *)
 EXTENDS RarOps, TLC
-CONSTANTS MaxCap, MaxSel, MaxStart, MaxEvery, MaxIter, InitCounter, MaskUpTo, TimeBase
-VARIABLES start, every, axes, i, since, steps, act, win, stepped
-vars == <<start, every, axes, i, since, steps, act, win, stepped>>
+CONSTANTS MaxCap, MaxSel, MaxStart, MaxEvery, MaxIter, InitCounter, MaskUpTo, TimeBase, OnRestart, MaxCalls
+VARIABLES start, every, axes, i, since, steps, act, win, stepped, calls
+vars == <<start, every, axes, i, since, steps, act, win, stepped, calls>>
 
 AxisSet == {ax \in [cap : 1..MaxCap, nstart : 1..MaxCap, sel : 1..MaxSel] : ax.nstart <= ax.cap}
 Init == /\ start \in 0..MaxStart /\ every \in 1..MaxEvery
         /\ axes \in {<<a>> : a \in AxisSet} \cup {<<a, b>> : a \in AxisSet, b \in AxisSet}
-        /\ i = 0 /\ steps = 0 /\ stepped = FALSE
+        /\ i = 0 /\ steps = 0 /\ stepped = FALSE /\ calls = 1
         /\ since = IF InitCounter = "zero" THEN 0 ELSE every - 1
         /\ act = [a \in DOMAIN axes |-> Prefix(axes[a].nstart)]
         /\ win = [a \in DOMAIN axes |-> {}]
@@ -45,16 +50,20 @@ RarTrue  == /\ Proceed
 RarFalse == /\ ~Proceed
             /\ since' = since + (IF i > start THEN 1 ELSE 0)
             /\ stepped' = FALSE /\ UNCHANGED <<win, act, steps>>
-Iterate == /\ i < MaxIter /\ (RarTrue \/ RarFalse) /\ i' = i + 1 /\ UNCHANGED <<start, every, axes>>
-Next == Iterate
-Spec == Init /\ [][Next]_vars /\ WF_vars(Next)
+Iterate == /\ i < MaxIter /\ (RarTrue \/ RarFalse) /\ i' = i + 1 /\ UNCHANGED <<start, every, axes, calls>>
+Restart == /\ calls < MaxCalls /\ i > 0 /\ calls' = calls + 1 /\ i' = 0 /\ stepped' = FALSE
+           /\ since' = IF OnRestart = "keep" THEN since ELSE IF InitCounter = "zero" THEN 0 ELSE every - 1
+           /\ UNCHANGED <<start, every, axes, steps, act, win>>
+Next == Iterate \/ Restart
+Spec == Init /\ [][Next]_vars /\ WF_vars(Iterate)
 
 (* -------- C16 -------- *)
 NoStepBeforeStart == [][ stepped' => i >= start ]_vars
-StepsExactlyOnSchedule == [][ stepped' <=> StepExpected(i, start, every, axes, steps) ]_vars
+IsIter == i' = i + 1      \* an Iterate step (a Restart sets i' = 0 from i > 0)
+StepsExactlyOnSchedule == [][ IsIter => (stepped' <=> StepExpected(i, start, every, axes, steps)) ]_vars
 ActiveCount == \A a \in DOMAIN axes : CountVerdict(axes[a], steps, act[a]) = "ok"
 NeverExceedsStore == \A a \in DOMAIN axes : NActive(axes[a], steps) <= axes[a].cap
-MonitorAgrees == [][ ScheduleVerdict(i, start, every, axes, steps, stepped') = "ok" ]_vars
+MonitorAgrees == [][ IsIter => ScheduleVerdict(i, start, every, axes, steps, stepped') = "ok" ]_vars
 (* -------- C17 (slot level) -------- *)
 OnlyInactiveOverwritten == [][ stepped' => \A a \in DOMAIN axes : win'[a] \cap act[a] = {} /\ win'[a] = Window(axes[a], steps) ]_vars
 ActiveSlotsSurvive == [][ \A a \in DOMAIN axes : act[a] \subseteq act'[a] ]_vars
